@@ -24,12 +24,23 @@ import (
 
 type Case struct {
 	K    string `json:"k"`
-	Seed uint64 `json:"seed"`
+	Seed uint64 `json:"seed,omitempty"`
+	// enumerated cases (k = "x", see enum.go): client mode, entry point, per command opt-in and shape
+	Mode  string `json:"mode,omitempty"`
+	E     int    `json:"e,omitempty"`
+	Opt   []bool `json:"opt,omitempty"`
+	Shape []int  `json:"shape,omitempty"`
+	ID    int    `json:"id,omitempty"`
 }
 
 var kindsFlag = flag.String("kinds", "standalone,sentinel,cluster,standalone-e,sentinel-e,cluster-e,cluster-e,cluster-e", "case kinds to generate")
 
+var enumFlag = flag.Bool("enum", true, "run the exhaustive small scope (enum.go) before the random cases")
+
 func genCase(r *gen.Rand, i int) any {
+	if *enumFlag && i < len(enumCases) {
+		return enumCases[i]
+	}
 	return Case{K: gen.Pick(r, strings.Split(*kindsFlag, ",")), Seed: r.U64() ^ ro.SeedMix()}
 }
 
@@ -392,6 +403,8 @@ func main() {
 				return runStandaloneE(c)
 			case "sentinel-e":
 				return runSentinelE(c)
+			case "x":
+				return runEnum(c)
 			}
 			return obs.Result{Kind: "other"}
 		},
